@@ -14,6 +14,8 @@
      needed by the targets do not run", "each data is published once": c05_value_eq_sequential, c05_inputs_eq_sequential,
      c05_only_needed, c05_data_once over the event-level engine ENG, for every graph in topological order, every
      processor function f, every preset, every target set and every event schedule.
+   * "each data is published once" at the level of the public wrapper: c05_publish_once / c05_move_transfers (machine G,
+     Committer<T>: publication exactly once, at release()/destruction of the unique valid committer, never at a move).
    * "After reset()": c05_dep_reset (the per-run state of a dependency is its initial state again); the
      run/reset/run cycles themselves are exercised on the implementation by the check.
    Link between the levels (machine-checked as far as stated here): machine E composes, for ONE vertex with n
@@ -232,3 +234,28 @@ Example c05_term_example :
   let s := trun (proc_fn ex_flags) ex_g ex_pre [2%nat] tinit (map TBase ex_sched ++ [TFlush]) in
   flushed s = true /\ fin (base s) = Some 0 /\ tsteps (proc_fn ex_flags) ex_g ex_pre [2%nat] tinit (map TBase ex_sched ++ [TFlush]) = 11%nat.
 Proof. exact af_term_example. Qed.
+
+(* ---- G. the publication wrapper Committer<T>: for every program of committer operations (construct, move-construct,
+   move-assign, write, clear, release, destroy, cancel) a data is published at most once, never by a move construction,
+   its content never changes after publication, there is at most one valid committer per data, and once the committers
+   of an acquired data are gone (none cancelled) it has been published exactly once.  What the move constructor / move
+   assignment / destructor / release() / cancel() / get() do is regenerated from data.hpp (cm_ targets). ---- *)
+Theorem c05_publish_once : forall l d, let s := prun pinit l in
+  (dpub (cells s d) <= 1)%nat /\ pmove s = false /\ dlate (cells s d) = false /\
+  ((1 <= dpub (cells s d))%nat -> dpubval (cells s d) = dval (cells s d)) /\
+  (nvalid d (cms s) <= 1)%nat /\
+  (dacq (cells s d) = true -> nvalid d (cms s) = 0%nat -> dcan (cells s d) = 0%nat -> dpub (cells s d) = 1%nat).
+Proof. exact af_publish_once. Qed.
+Print Assumptions c05_publish_once.
+
+(* move construction = transfer without publication: the data cells are untouched, the source becomes (nullptr, false),
+   the new committer has the source's former fields *)
+Theorem c05_move_transfers : forall s i c s', nth_error (cms s) i = Some c -> pstep s (PMove i) = Some s' ->
+  cells s' = cells s /\ nth_error (cms s') i = Some {| cmd := None; cmv := false |} /\ nth_error (cms s') (length (cms s)) = Some c.
+Proof. exact af_move_transfers. Qed.
+Print Assumptions c05_move_transfers.
+
+Example c05_publish_example :
+  let s := prun pinit [PNew 0; PMove 0; PWrite 1 5; PNew 1; PAssign 2 1; PWrite 2 7; PDtor 0; PDtor 1; PDtor 2]%nat in
+  dpub (cells s 0%nat) = 1%nat /\ dpubval (cells s 0%nat) = Some 7 /\ dpub (cells s 1%nat) = 1%nat /\ dpubval (cells s 1%nat) = None.
+Proof. exact af_publish_example. Qed.
